@@ -639,6 +639,28 @@ def gen_ir(rng, n_calls, family=None, rich=True, cfg=None):
                 # a generator result can only be consumed once: keep it as a plain dependency
                 late_deps.append(pid)
                 continue
+            if rich and rng.random() < 0.05:
+                # unpack applied directly to a STRUCTURE that contains nodes: it yields what iterating the rebuilt structure yields - the items of
+                # a list / tuple, the KEYS of a dict, the elements of a set
+                shape = rng.choice(["list", "tuple", "dict", "dictkey", "set1"] if pid in hashable else ["list", "tuple", "dict"])
+                if shape in ("list", "tuple"):
+                    members = [ref(pid), const(rng.choice(CONSTS)), ref(pid)][: rng.randint(1, 3)]
+                    sx = X(shape, members)
+                    ulen = len(members)
+                elif shape == "dict":
+                    sx = X("dict", [(const("a"), ref(pid)), (const("b"), const(rng.choice(CONSTS)))][: rng.randint(1, 2)])
+                    ulen = len(sx.a)
+                elif shape == "dictkey":
+                    sx = X("dict", [(ref(pid), const(1))])
+                    ulen = 1
+                else:
+                    sx = X("set", [ref(pid)])
+                    ulen = 1
+                u = ir.add("unpack", src=sx, length=ulen)
+                its = [ir.add("item", src=u.id, index=j) for j in range(ulen)]
+                ir.meta["unpack_of_structures"] = ir.meta.get("unpack_of_structures", 0) + 1
+                args.append(ref(rng.choice(its).id))
+                continue
             if r < p_dep:
                 late_deps.append(pid)
             elif r < p_dep + p_kw:
